@@ -24,9 +24,20 @@ let ep_of = function
   | "L" -> EpLogin | "C" -> EpCallback | "O" -> EpLogout | "K" -> EpLogoutLocal | "B" -> EpLogoutCallback
   | "F" -> EpFrontChannel | _ -> failwith "endpoint"
 
+(* e<status>[.<cause>]: the cause (why the request fails; arranged by the driver on the real stack) is handed to the model,
+   whose handlers see the status alone (Model/Retry.v fault_of_cause) *)
+let cause_of = function
+  | "" -> FcUnspecified | "5" -> FcProvider5xx | "m" -> FcProviderMalformed | "t" -> FcProviderTimeout | "r" -> FcProviderRefused
+  | "x" -> FcClientCanceled | "s" -> FcStore | "st" -> FcStoreTimeout | "sc" -> FcStoreCanceled
+  | c -> failwith ("cause " ^ c)
+
 let fault_of s =
   if s = "n" then CFNone else if s = "s" then CFSoft
-  else if String.length s > 1 && s.[0] = 'e' then CFErr (z_of_string (String.sub s 1 (String.length s - 1)))
+  else if String.length s > 1 && s.[0] = 'e' then
+    let body = String.sub s 1 (String.length s - 1) in
+    (match String.index_opt body '.' with
+     | None -> ck_fault (z_of_string body) FcUnspecified
+     | Some i -> ck_fault (z_of_string (String.sub body 0 i)) (cause_of (String.sub body (i + 1) (String.length body - i - 1))))
   else failwith "fault"
 
 let rec origins n toks =
